@@ -26,3 +26,35 @@ func VerifDirtyCount(ctx *MPCalContext) int {
 
 // VerifSetVClocksEnabled switches the context's vector clock sink on.
 func VerifEnableVClocks(ctx *MPCalContext) { ctx.vclockSink.SetEnabled(true) }
+
+// VerifPreRun performs the start-up part of Run (parameter checks, archetype preamble) without entering the loop.
+func VerifPreRun(ctx *MPCalContext) { ctx.preRun() }
+
+// VerifStep executes exactly one iteration of Run's loop body: one critical-section attempt at the current label,
+// followed by the REAL commit() or abort(). It returns whether the attempt committed; err is nil for committed and
+// aborted attempts and carries ErrDone / assertion failures / resource errors otherwise (the attempt is then rolled
+// back with abort() so that the context can be inspected).
+func VerifStep(ctx *MPCalContext) (committed bool, err error) {
+	pc := ctx.iface.RequireArchetypeResource(".pc")
+	ctx.eventState.BeginEvent()
+	ctx.vclockSink.InitCriticalSection(ctx.archetype.Name, ctx.self)
+	pcVal, err := ctx.iface.Read(pc, nil)
+	if err == nil {
+		pcValStr := pcVal.AsString()
+		ctx.fairnessCounter.BeginCriticalSection(pcValStr)
+		criticalSection := ctx.iface.getCriticalSection(pcValStr)
+		err = criticalSection.Body(ctx.iface)
+		if err == nil {
+			err = ctx.commit()
+		}
+	}
+	switch err {
+	case nil:
+		return true, nil
+	case ErrCriticalSectionAborted:
+		ctx.abort()
+		return false, nil
+	}
+	ctx.abort()
+	return false, err
+}
